@@ -259,6 +259,12 @@ RdfSecond ==
     \* a record DECLARED under the name ex:y, which attribute values of the first record may mention
     [op |-> "NewRec", h |-> "d1", k |-> "entity", via |-> "new_record", id |-> <<NamePL("ex", Y)>>,
      formals |-> <<>>, extras |-> <<>>],
+    \* plain relations whose endpoints lie in a namespace of their own, under a prefix that RDF tool kits
+    \* pre-bind to something else (rdflib: schema, dc, foaf, ...); nothing else names that namespace
+    [op |-> "NewRec", h |-> "d1", k |-> "attribution", via |-> "new_record", id |-> <<>>,
+     formals |-> << <<"entity", Ref(NameQN("schema", C, X))>>, <<"agent", Ref(NameQN("schema", C, Y))>> >>, extras |-> <<>>],
+    [op |-> "NewRec", h |-> "d1", k |-> "specialization", via |-> "new_record", id |-> <<>>,
+     formals |-> << <<"specificEntity", Ref(NamePL("ex", X))>>, <<"generalEntity", Ref(NameQN("dc", C, Y))>> >>, extras |-> <<>>],
     [op |-> "Bundle", h |-> "d1", id |-> NamePL("ex", <<"b1">>), out |-> "b1"] }
   \cup RdfRelMenu("d1")
   \cup (IF "b1" \in DOMAIN ms.con
